@@ -341,12 +341,32 @@ std::optional<std::chrono::seconds> manifest_ttl(const protocol::Manifest& manif
 // A manifest may name an expiry far beyond what this node is willing to keep anything for.
 // Everything derived from it later (key shares republished on fetch, pending fetches, swarm
 // plans, the cache entry itself) takes its lifetime from the cached copy, so the copy is cut to
-// the accepted lifetime once, when the manifest enters the node.
-void cap_manifest_expiry(protocol::Manifest& manifest, std::chrono::seconds accepted_ttl) {
-    const auto cap = std::chrono::system_clock::now() + accepted_ttl;
+// the longest accepted lifetime once, when the manifest enters the node. An expiry inside that
+// limit is left exactly as issued: accepted lifetimes are whole seconds, and cutting to them
+// would shave the sub-second remainder off an honest manifest every time it is gossiped back.
+void cap_manifest_expiry(protocol::Manifest& manifest, std::chrono::seconds max_ttl) {
+    const auto cap = std::chrono::system_clock::now() + max_ttl;
     if (manifest.expires_at > cap) {
         manifest.expires_at = cap;
     }
+}
+
+// The wire carries a manifest's expiry in whole seconds, the issuer's own copy does not, and a
+// manifest is gossiped back to the nodes that already know it. A copy of a manifest that is
+// already cached (same content, same key material) and that does not live longer changes
+// nothing: adopting it would only cut the lifetime of the cached copy and of the key shares,
+// and leave a holder unable to decrypt its own chunk during the last second of its life.
+bool adds_nothing_to_cached(const std::unordered_map<std::string, protocol::Manifest>& cache,
+                            const std::string& key,
+                            const protocol::Manifest& manifest) {
+    const auto it = cache.find(key);
+    if (it == cache.end()) {
+        return false;
+    }
+    const auto& cached = it->second;
+    return cached.chunk_hash == manifest.chunk_hash && cached.nonce.bytes == manifest.nonce.bytes
+        && cached.threshold == manifest.threshold && cached.shards.size() == manifest.shards.size()
+        && cached.expires_at >= manifest.expires_at;
 }
 
 Config sanitize_config(Config config) {
@@ -1703,7 +1723,7 @@ bool Node::ingest_manifest(const std::string& manifest_uri) {
     if (!ttl.has_value()) {
         return false;
     }
-    cap_manifest_expiry(manifest, *ttl);
+    cap_manifest_expiry(manifest, config_.max_manifest_ttl);
 
     {
         SchedulerLock lock(scheduler_mutex_);
@@ -1711,7 +1731,11 @@ bool Node::ingest_manifest(const std::string& manifest_uri) {
         if (held.has_value() && !manifest_describes_record(manifest, *held)) {
             return false;
         }
-        manifest_cache_[chunk_id_to_string(manifest.chunk_id)] = manifest;
+        const auto chunk_key = chunk_id_to_string(manifest.chunk_id);
+        if (adds_nothing_to_cached(manifest_cache_, chunk_key, manifest)) {
+            return true;
+        }
+        manifest_cache_[chunk_key] = manifest;
         dht_.publish_shards(manifest.chunk_id, manifest.shards, manifest.threshold, manifest.total_shares, *ttl);
     }
     update_swarm_plan(manifest);
@@ -1734,7 +1758,7 @@ std::optional<ChunkData> Node::receive_chunk(const std::string& manifest_uri, Ch
     if (!ttl.has_value()) {
         return std::nullopt;
     }
-    cap_manifest_expiry(manifest, *ttl);
+    cap_manifest_expiry(manifest, config_.max_manifest_ttl);
 
     std::vector<crypto::ShamirShare> shares;
     shares.reserve(manifest.shards.size());
@@ -2537,7 +2561,7 @@ void Node::handle_announce(const protocol::AnnouncePayload& payload,
         return;
     }
 
-    cap_manifest_expiry(manifest, *ttl_opt);
+    cap_manifest_expiry(manifest, config_.max_manifest_ttl);
 
     {
         SchedulerLock lock(scheduler_mutex_);
@@ -2545,7 +2569,8 @@ void Node::handle_announce(const protocol::AnnouncePayload& payload,
         // Another publisher's manifest for a chunk held here names a provider, but its key
         // shares belong to that publisher's copy, not to the bytes this node holds.
         const auto held = chunk_store_.get_record(manifest.chunk_id);
-        if (!held.has_value() || manifest_describes_record(manifest, *held)) {
+        if ((!held.has_value() || manifest_describes_record(manifest, *held))
+            && !adds_nothing_to_cached(manifest_cache_, chunk_key, manifest)) {
             manifest_cache_[chunk_key] = manifest;
             dht_.publish_shards(manifest.chunk_id, manifest.shards, manifest.threshold, manifest.total_shares, *ttl_opt);
             update_swarm_plan(manifest);
